@@ -543,6 +543,13 @@ def omm_spec(draw):
     src = draw(st.sampled_from(["tle", "tle", "direct"]))
     spec = dict(type="omm", source=src, tle=draw(tle_fields()), user=draw(user_fields()),
                 cov=draw(opt(cov_spec("TEME", FRAMES), 2)))
+    if src == "tle" and draw(st.integers(0, 2)) == 0:
+        # the element set is updated after the orbit was made from the TLE (an orbit determination re-publishing it):
+        # the orbit's own fields are what has to be written, not those of the Tle object it still carries
+        other = draw(tle_fields())
+        keys = draw(st.lists(st.sampled_from(["bstar", "ndot", "ndotdot", "element_nb", "revolutions", "norad_id"]),
+                             min_size=1, max_size=4, unique=True))
+        spec["edits"] = dict(keys=keys, other=other, via_copy=draw(st.booleans()))
     if src == "direct":
         spec["off_grid"] = draw(st.sampled_from([0.0, 0.0, 0.00004, 0.00006]))  # deg added to the four angles
         spec["epoch"] = draw(date_spec())
@@ -558,6 +565,16 @@ def build_omm(spec):
         from beyond.io.tle import Tle
 
         orb = Tle(tle_text(t)).orbit()
+        ed = spec.get("edits")
+        if ed:
+            o = ed["other"]
+            if ed["via_copy"]:
+                orb = orb.copy()
+            new = dict(bstar=o["bstar_m"] * 1e-5 * 10.0 ** o["bstar_x"], ndot=o["ndot_e8"] * 1e-8 * 2,
+                       ndotdot=o["nddot_m"] * 1e-5 * 10.0 ** o["nddot_x"] * 6, element_nb=o["elnb"],
+                       revolutions=o["revs"], norad_id=o["norad"])
+            for k in ed["keys"]:
+                setattr(orb, k, new[k])
     else:
         from beyond.orbits import Orbit
 
